@@ -8,6 +8,7 @@ import (
 	"k8s.io/apimachinery/pkg/runtime/schema"
 
 	"package-operator.run/apis"
+	hypershiftv1beta1 "package-operator.run/internal/controllers/hostedclusters/hypershift/v1beta1"
 	"package-operator.run/internal/packages/zzverif/kmodel"
 )
 
@@ -26,6 +27,9 @@ var Scheme = func() *runtime.Scheme {
 	if err := corev1.AddToScheme(s); err != nil {
 		panic(err)
 	}
+	if err := hypershiftv1beta1.AddToScheme(s); err != nil {
+		panic(err)
+	}
 	return s
 }()
 
@@ -41,6 +45,7 @@ var Kinds = func() []kmodel.KindInfo {
 		{Group: "", Version: "v1", Kind: "ConfigMap", Namespaced: true},
 		{Group: "", Version: "v1", Kind: "Secret", Namespaced: true},
 		{Group: "", Version: "v1", Kind: "Namespace", Namespaced: false, HasStatus: true},
+		{Group: "hypershift.openshift.io", Version: "v1beta1", Kind: "HostedCluster", Namespaced: true, HasStatus: true},
 	}
 	for _, n := range []string{"ObjectSet", "ObjectSetPhase", "ObjectDeployment", "ObjectSlice", "Package", "ObjectTemplate"} {
 		hs := n != "ObjectSlice"
